@@ -1,0 +1,23 @@
+//go:build verif
+
+package autocert
+
+import "time"
+
+// This file is add-only verification plumbing (build tag "verif"); it changes
+// no behaviour and is not part of the package API.
+
+// VerifRenewalNext calls domainRenewal.next for a renewal owned by m
+// (m.RenewBefore and m's clock are the only Manager state next reads).
+func VerifRenewalNext(m *Manager, notBefore, notAfter time.Time) time.Duration {
+	dr := &domainRenewal{m: m}
+	return dr.next(notBefore, notAfter)
+}
+
+// VerifSetNow installs the Manager's test clock (the unexported nowFunc field).
+// It must be called before the Manager is used.
+func VerifSetNow(m *Manager, now func() time.Time) { m.nowFunc = now }
+
+// VerifStopRenew stops all renewal timers of m and waits for in-flight
+// renewals (Manager.stopRenew).
+func VerifStopRenew(m *Manager) { m.stopRenew() }
